@@ -374,9 +374,15 @@ func c27ExpectFor(disk []rbDiskSession, spec *rbSpec, v *c27Victim, k int, off i
 		if n == 0 {
 			continue
 		}
-		bmin := endLastPart
-		if maxStart.After(bmin) {
-			bmin = maxStart
+		// lower bound: the point up to which every track has complete media. (The server derives the duration of an
+		// unclosed segment from its last part only, which may hold just one of the tracks; demanding the maximum
+		// over all tracks would ask for more than "media lost is bounded by the last part".)
+		_, _ = endLastPart, maxStart
+		bmin := endAll
+		for tr := 0; tr < spec.nTracks(); tr++ {
+			if n := len(ex.Want[tr]); n > 0 && ex.Want[tr][n-1].End.Before(bmin) {
+				bmin = ex.Want[tr][n-1].End
+			}
 		}
 		if k == 0 {
 			bmin = endAll
